@@ -13,6 +13,7 @@ use crate::rng::Rng;
 use crate::world::{timed, Stop, R};
 use ahash::AHashMap;
 use bytes::{BufMut, Bytes, BytesMut};
+use iggy::binary::binary_client::BinaryClient;
 use iggy::bytes_serializable::BytesSerializable;
 use iggy::client::*;
 use iggy::command::Command;
@@ -450,6 +451,7 @@ async fn differential(hseed: u64, cache: CacheMode, rep: &mut ShardReport) -> R<
     let mut cfg = StorageCfg::random(&mut r);
     cfg.no_wait = false;
     cfg.http = true;
+    cfg.quic = hseed % 3 == 0;
     cfg.segment_size = 1_000_000_000;
     let dir = scratch_root().join(format!("d{:016x}", hseed));
     let inst = ServerInstance::start(&dir, &cfg, cache).await.map_err(|e| Stop::Inconclusive(format!("{e:?}")))?;
@@ -459,9 +461,45 @@ async fn differential(hseed: u64, cache: CacheMode, rep: &mut ShardReport) -> R<
     res
 }
 
+/// The SDK's own QUIC client against the in-process QUIC listener (no reconnection: a lost connection is an error, not a retry loop).
+pub async fn quic_client(addr: std::net::SocketAddr) -> Result<iggy::quic::client::QuicClient, String> {
+    let mut qc = iggy::quic::config::QuicClientConfig::default();
+    qc.server_address = addr.to_string();
+    qc.reconnection.enabled = false;
+    let c = iggy::quic::client::QuicClient::create(Arc::new(qc)).map_err(|e| format!("quic client: {e}"))?;
+    match tokio::time::timeout(std::time::Duration::from_secs(30), Client::connect(&c)).await {
+        Ok(Ok(())) => Ok(c),
+        Ok(Err(e)) => Err(format!("quic connect: {e}")),
+        Err(_) => Err("quic connect: no answer in 30 s".into()),
+    }
+}
+
 async fn differential_inner(hseed: u64, r: &mut Rng, inst: &ServerInstance, rep: &mut ShardReport) -> R<()> {
-    let mut ops: Vec<String> = vec![];
-    let tcp = RawClient::connect(inst.tcp_addr).await.map_err(Stop::Inconclusive)?;
+    // The binary side of the differential is TCP (the harness' own framing client) or, in a third of the histories, the SDK's QUIC
+    // client against the QUIC listener: same decoders and handlers, but its own request framing, sender and session handling.
+    match inst.quic_addr {
+        Some(addr) => {
+            let quic = quic_client(addr).await.map_err(Stop::Inconclusive)?;
+            let res = differential_body(hseed, r, inst, rep, &quic, "quic").await;
+            let _ = tokio::time::timeout(std::time::Duration::from_secs(5), Client::disconnect(&quic)).await;
+            if res.is_ok() {
+                rep.event("differential_over_quic");
+            }
+            res
+        }
+        None => {
+            let tcp = RawClient::connect(inst.tcp_addr).await.map_err(Stop::Inconclusive)?;
+            let res = differential_body(hseed, r, inst, rep, &tcp, "tcp").await;
+            if res.is_ok() {
+                rep.event("differential_over_tcp");
+            }
+            res
+        }
+    }
+}
+
+async fn differential_body<B: BinaryClient + Client>(hseed: u64, r: &mut Rng, inst: &ServerInstance, rep: &mut ShardReport, tcp: &B, binary: &str) -> R<()> {
+    let mut ops: Vec<String> = vec![format!("binary transport: {binary}")];
     timed("login", tcp.login_user("iggy", "iggy")).await?.map_err(|e| Stop::Inconclusive(e.to_string()))?;
     let http = HttpClient::create(Arc::new(HttpClientConfig { api_url: format!("http://{}", inst.http_addr.unwrap()), retries: 0 })).map_err(|e| Stop::Inconclusive(e.to_string()))?;
     timed("http login", http.login_user("iggy", "iggy")).await?.map_err(|e| Stop::Inconclusive(e.to_string()))?;
@@ -472,7 +510,7 @@ async fn differential_inner(hseed: u64, r: &mut Rng, inst: &ServerInstance, rep:
         let name = format!("{}{}", (b'a' + i as u8) as char, ascii(r, *l).chars().skip(1).collect::<String>());
         let via_http = pick(r);
         ops.push(format!("create_stream name_len={} via {}", name.len(), if via_http { "http" } else { "tcp" }));
-        let c: &dyn Client = if via_http { &http } else { &tcp };
+        let c: &dyn Client = if via_http { &http } else { tcp };
         let sd = timed("create_stream", c.create_stream(&name, None)).await?;
         rep.eval("C13:e2e-request-accepted");
         let sd = match sd {
@@ -480,7 +518,7 @@ async fn differential_inner(hseed: u64, r: &mut Rng, inst: &ServerInstance, rep:
             Err(e) => return Err(sv(hseed, &ops, "e2e-request-accepted", "create_stream", json!({"name_len": name.len(), "error": e.to_string()}))),
         };
         streams.push((sd.id, name.clone()));
-        for (tn, cl) in [("tcp", &tcp as &dyn Client), ("http", &http as &dyn Client)] {
+        for (tn, cl) in [("tcp", tcp as &dyn Client), ("http", &http as &dyn Client)] {
             for idf in [Identifier::numeric(sd.id).unwrap(), Identifier::named(&name).unwrap()] {
                 ops.push(format!("get_stream {idf} via {tn}"));
                 rep.eval("C13:e2e-response-agrees");
@@ -513,7 +551,7 @@ async fn differential_inner(hseed: u64, r: &mut Rng, inst: &ServerInstance, rep:
         let comp = compression(r);
         let via_http = pick(r);
         ops.push(format!("create_topic name_len={} parts={parts} expiry={exp} max={ms} rf={rf:?} via {}", name.len(), if via_http { "http" } else { "tcp" }));
-        let c: &dyn Client = if via_http { &http } else { &tcp };
+        let c: &dyn Client = if via_http { &http } else { tcp };
         rep.eval("C13:e2e-request-accepted");
         let td = match timed("create_topic", c.create_topic(&s1, &name, parts, comp, rf, None, exp, ms)).await? {
             Ok(t) => t,
@@ -539,7 +577,7 @@ async fn differential_inner(hseed: u64, r: &mut Rng, inst: &ServerInstance, rep:
         let perms = permissions(r);
         let via_http = pick(r);
         ops.push(format!("create_user {name} via {}", if via_http { "http" } else { "tcp" }));
-        let c: &dyn Client = if via_http { &http } else { &tcp };
+        let c: &dyn Client = if via_http { &http } else { tcp };
         rep.eval("C13:e2e-request-accepted");
         let ud = match timed("create_user", c.create_user(&name, "secret-password", status(r), perms.clone())).await? {
             Ok(u) => u,
@@ -579,7 +617,7 @@ async fn differential_inner(hseed: u64, r: &mut Rng, inst: &ServerInstance, rep:
         }
         let via_http = pick(r);
         ops.push(format!("send batch {b} n={n} via {}", if via_http { "http" } else { "tcp" }));
-        let c: &dyn Client = if via_http { &http } else { &tcp };
+        let c: &dyn Client = if via_http { &http } else { tcp };
         rep.eval("C13:e2e-request-accepted");
         if let Err(e) = timed("send", c.send_messages(&s1, &t1, &part, &mut msgs)).await? {
             return Err(sv(hseed, &ops, "e2e-request-accepted", "send_messages", json!({"error": e.to_string(), "partitioning": format!("{:?}", part.kind)})));
@@ -633,7 +671,7 @@ async fn differential_inner(hseed: u64, r: &mut Rng, inst: &ServerInstance, rep:
             timed("join", tcp.join_consumer_group(&s1, &t1, &Identifier::numeric(g.id).unwrap())).await?.map_err(|e| Stop::Inconclusive(e.to_string()))?;
         }
         let via_http = k % 2 == 0 && !is_group;
-        let (w, rd): (&dyn Client, &dyn Client) = if is_group { (&tcp, &tcp) } else if via_http { (&http, &tcp) } else { (&tcp, &http) };
+        let (w, rd): (&dyn Client, &dyn Client) = if is_group { (tcp, tcp) } else if via_http { (&http, tcp) } else { (tcp, &http) };
         ops.push(format!("store offset consumer#{k} via {}", if via_http { "http" } else { "tcp" }));
         rep.eval("C13:e2e-request-accepted");
         if let Err(e) = timed("store", w.store_consumer_offset(&cons, &s1, &t1, Some(1), 0)).await? {
@@ -710,7 +748,7 @@ async fn differential_inner(hseed: u64, r: &mut Rng, inst: &ServerInstance, rep:
         for (name, exp) in [("tok-hour", IggyExpiry::ExpireDuration(IggyDuration::from(3_600_000_000u64))), ("tok-never", IggyExpiry::NeverExpire), ("tok-day", IggyExpiry::ExpireDuration(IggyDuration::from(86_400_000_000u64)))] {
             let via_http = pick(r);
             ops.push(format!("create_personal_access_token {name} via {}", if via_http { "http" } else { "tcp" }));
-            let c: &dyn Client = if via_http { &http } else { &tcp };
+            let c: &dyn Client = if via_http { &http } else { tcp };
             rep.eval("C13:e2e-request-accepted");
             match timed("create_token", c.create_personal_access_token(name, exp)).await? {
                 Ok(t) if !t.token.is_empty() => {}
@@ -803,7 +841,7 @@ async fn differential_inner(hseed: u64, r: &mut Rng, inst: &ServerInstance, rep:
             json!([c.client_id, c.user_id, c.address, c.transport, c.consumer_groups_count, g])
         };
         match (&a, &b) {
-            (Ok(Some(x)), Ok(Some(y))) if norm(x) == norm(y) && norm(x) == norm(&me) && x.user_id == Some(1) && x.consumer_groups_count == 1 && x.consumer_groups.len() == 1 && x.transport.to_lowercase() == "tcp" => {}
+            (Ok(Some(x)), Ok(Some(y))) if norm(x) == norm(y) && norm(x) == norm(&me) && x.user_id == Some(1) && x.consumer_groups_count == 1 && x.consumer_groups.len() == 1 && x.transport.to_lowercase() == binary => {}
             _ => return Err(sv(hseed, &ops, "e2e-response-agrees", "get_client", json!({"get_me": norm(&me), "tcp": format!("{a:?}"), "http": format!("{b:?}")}))),
         }
     }
